@@ -502,10 +502,134 @@ def run_tee(case):
     return {"ev": len(outs), "h": h, "nt": True, "out": sorted(set(outs)), "viol": viol}
 
 
+def _desc_of(r):
+    return [r._desc.name, [list(t) for t in r._desc.get_field_tuples()]]
+
+
+def run_long(case):
+    """A long history (mc.streamspace generators: one hot type between hundreds of incidental ones, a sweep over old types next to
+    new ones, many types, periodic patterns, a first record above a size threshold) through ONE writer of each packer; every record
+    must be preceded by its definition on the wire (reference decoder / line parser) and come back with the descriptor it had."""
+    from flow.record import RecordStreamReader, RecordStreamWriter
+    from flow.record.adapter.jsonfile import JsonfileReader, JsonfileWriter
+
+    from mc import streamspace
+
+    specs = streamspace.expand(case)
+    records = []
+    for sp in specs:
+        if sp.get("xfail") or (case["packer"] == "json" and "group" in sp):
+            continue
+        records.append(recs.build_record(sp))
+    expected = obs_list(records)
+    viol = []
+    outs = []
+    ev = 0
+    gen = "%s" % case["gen"][0]
+    if case["packer"] == "binary":
+        buf = io.BytesIO()
+        w = RecordStreamWriter(buf)
+        for r in records:
+            w.write(r)
+        w.flush()
+        data = buf.getvalue()
+        ev += 1
+        try:
+            got, _ = refcodec.decode_stream(data)
+            d = recs.list_diff(expected, got)
+            if d:
+                viol.append(("C03:long:binary:ref-decode:%s:%s" % (gen, d[3]), case, {"record_index": d[0], "where": d[1]}))
+        except refcodec.FormatError as e:
+            viol.append(("C03:long:binary:ref-format:%s:%s" % (gen, str(e).split("(")[0].strip()[:40]), case, {"error": str(e)[:200]}))
+        for how in (drain, drain_resumed):
+            ev += 1
+            items, exc = how(RecordStreamReader(io.BytesIO(data)))
+            if exc is not None:
+                viol.append(("C03:long:binary:reader-raises:%s:%s" % (gen, type(exc).__name__), case, {"error": repr(exc)[:200], "read_before": len(items), "written": len(records)}))
+                continue
+            d = recs.list_diff(expected, obs_list(items))
+            if d:
+                viol.append(("C03:long:binary:reader:%s:%s" % (gen, d[3]), case, {"record_index": d[0], "where": d[1]}))
+            else:
+                bad = [i for i, (a, b) in enumerate(zip(records, items)) if _desc_of(a) != _desc_of(b)]
+                if bad:
+                    viol.append(("C03:long:binary:reader:%s:descriptor-differs" % gen, case, {"record_index": bad[0], "created_with": _desc_of(records[bad[0]]), "read_back": _desc_of(items[bad[0]])}))
+        outs.append("binary")
+    else:
+        sio = io.StringIO()
+        w = JsonfileWriter(sio)
+        for r in records:
+            w.write(r)
+        w.flush()
+        text = sio.getvalue()
+        # line level: the last definition announced for a record's identifier before its line is the one it was created with
+        reg = {}
+        recno = 0
+        for e in json_events(text):
+            if e[0] == "DESC":
+                reg[e[1]] = (e[2], [list(t) for t in e[3]])
+            else:
+                if recno >= len(records):
+                    viol.append(("C03:long:json:extra-record-line:%s" % gen, case, {}))
+                    break
+                have = reg.get(e[1])
+                if have is None or [have[0], have[1]] != _desc_of(records[recno]):
+                    viol.append(("C03:long:json:line-order:%s" % gen, case, {"record": recno, "announced": have, "created_with": _desc_of(records[recno])}))
+                    break
+                recno += 1
+        _n[0] += 1
+        p = os.path.join(os.environ["VERIF_SCRATCH"], "c03-long-%d-%d.json" % (os.getpid(), _n[0]))
+        with open(p, "w") as f:
+            f.write(text)
+        try:
+            for how in (drain, drain_resumed):
+                ev += 1
+                try:
+                    rd = JsonfileReader(p)
+                    items, exc = how(rd)
+                    rd.close()
+                except Exception as e:  # noqa: BLE001
+                    items, exc = [], e
+                if exc is not None:
+                    viol.append(("C03:long:json:reader-raises:%s:%s" % (gen, type(exc).__name__), case, {"error": repr(exc)[:200], "read_before": len(items), "written": len(records)}))
+                    continue
+                if len(items) != len(records):
+                    viol.append(("C03:long:json:reader-count:%s" % gen, case, {"read": len(items), "written": len(records)}))
+                    continue
+                bad = [i for i, (a, b) in enumerate(zip(records, items)) if _desc_of(a) != _desc_of(b)]
+                if bad:
+                    viol.append(("C03:long:json:reader:%s:descriptor-differs" % gen, case, {"record_index": bad[0], "created_with": _desc_of(records[bad[0]]), "read_back": _desc_of(items[bad[0]])}))
+        finally:
+            os.unlink(p)
+        outs.append("json")
+    seen = set()
+    viol = [v for v in viol if not (v[0] in seen or seen.add(v[0]))]
+    return {"ev": ev, "h": jhash(case), "nt": True, "out": "long:%s:%s:%s" % (case["packer"], gen, "viol" if viol else "ok"), "viol": viol}
+
+
+def long_cases(tier):
+    from mc import streamspace
+
+    for c in streamspace.long_cases(tier):
+        g = c["gen"]
+        if g[0] in ("sizes", "align", "stride"):
+            continue  # (size walks without a change of type are C01's / C04's matter)
+        yield dict(c, kind="long", packer="binary")
+        # JSON lines has no grouped encoding and refuses nothing the shapes with _BAD carry
+        names = g[1] if g[0] == "periodic" else []
+        if g[0] == "periodic" and any(n.startswith("G") or n.endswith("_BAD") or n in ("BIG", "C") for n in names):
+            continue
+        if g[-1] == "grouped":
+            continue
+        yield dict(c, kind="long", packer="json")
+
+
 def run_case(case):
     """Replay: judge every prefix of the history."""
     if case.get("kind") == "tee":
         return run_tee(case)
+    if case.get("kind") == "long":
+        return run_long(case)
     if case.get("kind") == "tla-edge":
         ok, got, _ = replay_edge((case["path"], case.get("model_steps"), case["writers"]))
         return {"ev": 1, "h": jhash(case), "viol": [] if ok else [("C03:tla:implementation-diverges-from-model:%s" % case["path"][-1][1], case, {"implementation_frames": got})]}
@@ -724,6 +848,8 @@ def main(tier, seed, workers=None):
     tee_cases = [{"kind": "tee", "kinds": [k], "writers": n, "order": o} for k in tee_kinds for n in (2, 3) for o in ("record-major", "writer-major")]
     tee_cases += [{"kind": "tee", "kinds": [k1, k2], "writers": 2, "order": o} for k1 in ("A", "G", "N_A", "G_Y", "G_NEST", "N_X") for k2 in ("B", "G_B", "N_B", "G_Y", "C") for o in ("record-major", "writer-major")]
     explore(run, tee_cases, run_tee, workers)
+    # long histories through one writer (bounded registries, batching and size thresholds only show there)
+    explore(run, long_cases(tier), run_long, workers, chunk=1)
     # TLA+ leg: model checked by TLC, every edge replayed against the implementation
     t1 = tla_leg(run, "DescriptorProtocol1.cfg" if not thorough else "DescriptorProtocol.cfg", workers, "tla")
     t2 = tla_leg(run, "DescriptorProtocolGAB.cfg", workers, "tla-gab") if thorough else {}
